@@ -97,7 +97,12 @@ def gen_branch(rep):
     p = le_int(vals[1], False)
     d = value - (p + 2)
     exp = [0xd0, d & 255] if -128 <= d <= 127 else None
-    return [("* = %d\nbne %s\n" % (p, lit(value)), exp)]
+    cases = [("* = %d\nbne %s\n" % (p, lit(value)), exp)]
+    if not (0x0200 <= p <= 0xf000):
+        # the same branch distance in the middle of the address space (the verifier's witness may sit at an
+        # edge where the instruction does not fit into the segment for an unrelated reason)
+        cases.append(("* = $1000\nbne %s\n" % lit(0x1000 + 2 + d), exp))
+    return cases
 
 
 PYOPS = {"apply_add_sub": [("+", lambda a, b: a + b), ("-", lambda a, b: a - b)], "apply_mul": [("*", lambda a, b: a * b)],
@@ -130,6 +135,15 @@ def gen_apply(rep):
     return cases
 
 
+def gen_data(rep):
+    v = le_int(rep["counterexample"]["kani_any_values"][0], True)
+    cases = []
+    for d, n in ((".byte", 1), (".word", 2), (".dword", 4)):
+        m = v % (1 << (8 * n))
+        cases.append(("* = $1000\n%s %s\n" % (d, lit(v)), [(m >> (8 * i)) & 255 for i in range(n)]))
+    return cases
+
+
 def generators(rep):
     unit = rep.get("unit")
     h = (rep.get("counterexample") or {}).get("harness", "")
@@ -137,6 +151,8 @@ def generators(rep):
         return gen_opcodes(rep)
     if unit == "arith" and h == "branch_full":
         return gen_branch(rep)
+    if unit == "arith" and h == "data_full":
+        return gen_data(rep)
     if unit == "arith" and h.startswith("apply_") and h in PYOPS:
         return gen_apply(rep)
     return None
